@@ -862,11 +862,12 @@ class Processor(object):
                 ]
 
         # If it is a nested list instead of a list of dict, we assume that
+        # (in a new list: the list given by the caller is not rewritten)
         if isinstance(pulse_labels[0], list):
-            for ind, pulse_group in enumerate(pulse_labels):
-                pulse_labels[ind] = {
-                    i: latex for i, latex in enumerate(pulse_group)
-                }
+            pulse_labels = [
+                {i: latex for i, latex in enumerate(pulse_group)}
+                for pulse_group in pulse_labels
+            ]
 
         # create a axis for each pulse
         fig = plt.figure(figsize=figsize, dpi=dpi)
